@@ -115,6 +115,7 @@ def main(argv=None):
 
     # 2. generated search
     results = core.run_sharded(prop, a.tier, seed, ctx) if hasattr(prop, "budget") and prop.budget(a.tier).get("examples", 0) > 0 else []
+    gen_evals = ctx.evaluations
     # 3. enumerated / exhaustive / fuzz parts
     if hasattr(prop, "extra"):
         prop.extra(ctx, a.tier, seed)
@@ -122,7 +123,7 @@ def main(argv=None):
     # 4. generator health (quick tier: the classes the property names must occur)
     health = []
     for label, frac in getattr(prop, "MIN_FRACTIONS", {}).items():
-        got = ctx.hist.get(label, 0) / max(1, ctx.evaluations)
+        got = ctx.hist.get(label, 0) / max(1, gen_evals)
         if got < frac:
             health.append("%s: %.4f < %.4f" % (label, got, frac))
 
@@ -143,6 +144,7 @@ def main(argv=None):
     wall = time.time() - t0
     cov = dict(
         evaluations=ctx.evaluations,
+        generated_evaluations=gen_evals,
         distinct_nontrivial=len(ctx.nontrivial) + ctx.enumerated_nontrivial,
         nontrivial_evaluations=ctx.nontrivial_count,
         rule=prop.RULE,
